@@ -144,7 +144,28 @@ func getParentMethodT(
 	isStatic bool,
 ) *T {
 
+	return findParentMethodT(frame, class, method, isPrivate, isStatic, map[ClassNode]bool{})
+}
+
+// findParentMethodT walks the ancestors of a class. A class reachable along several
+// paths (diamond-shaped include hierarchies) is searched once: a second visit cannot find
+// what the first did not, and without the visited set the walk is exponential in depth.
+func findParentMethodT(
+	frame string,
+	class string,
+	method string,
+	isPrivate bool,
+	isStatic bool,
+	visited map[ClassNode]bool,
+) *T {
+
 	classNode := ClassNode{Frame: frame, Class: class}
+
+	if visited[classNode] {
+		return nil
+	}
+
+	visited[classNode] = true
 
 	for _, parentNode := range ClassInheritanceMap[classNode] {
 		var methodT *T
@@ -221,12 +242,13 @@ func getParentMethodT(
 		}
 
 		methodT =
-			getParentMethodT(
+			findParentMethodT(
 				parentNode.Frame,
 				parentNode.Class,
 				method,
 				isPrivate,
 				isStatic,
+				visited,
 			)
 
 		if methodT != nil {
@@ -452,7 +474,26 @@ func setParentValueT(
 	isStatic bool,
 ) bool {
 
+	return assignParentValueT(frame, class, method, variable, t, isStatic, map[ClassNode]bool{})
+}
+
+func assignParentValueT(
+	frame string,
+	class string,
+	method string,
+	variable string,
+	t *T,
+	isStatic bool,
+	visited map[ClassNode]bool,
+) bool {
+
 	classNode := ClassNode{Frame: frame, Class: class}
+
+	if visited[classNode] {
+		return false
+	}
+
+	visited[classNode] = true
 
 	for _, parentNode := range ClassInheritanceMap[classNode] {
 		_, ok :=
@@ -477,7 +518,7 @@ func setParentValueT(
 		}
 
 		ok =
-			setParentValueT(parentNode.Frame, parentNode.Class, method, variable, t, isStatic)
+			assignParentValueT(parentNode.Frame, parentNode.Class, method, variable, t, isStatic, visited)
 
 		if ok {
 			return true
@@ -532,7 +573,25 @@ func getParentValueT(
 	isStatic bool,
 ) *T {
 
+	return findParentValueT(frame, class, method, variable, isStatic, map[ClassNode]bool{})
+}
+
+func findParentValueT(
+	frame string,
+	class string,
+	method string,
+	variable string,
+	isStatic bool,
+	visited map[ClassNode]bool,
+) *T {
+
 	classNode := ClassNode{Frame: frame, Class: class}
+
+	if visited[classNode] {
+		return nil
+	}
+
+	visited[classNode] = true
 
 	for _, parentNode := range ClassInheritanceMap[classNode] {
 		t, ok :=
@@ -549,7 +608,7 @@ func getParentValueT(
 		}
 
 		valueT :=
-			getParentValueT(parentNode.Frame, parentNode.Class, method, variable, isStatic)
+			findParentValueT(parentNode.Frame, parentNode.Class, method, variable, isStatic, visited)
 
 		if valueT != nil {
 			return valueT
